@@ -71,6 +71,7 @@ def build_configs(o: dict):
     if o.get("suites_s"):
         scfg.cipher_suites = [CipherSuite[x] for x in o["suites_s"]]
     scfg.certificate, scfg.private_key = P.leaf(o.get("key", "p256"), o.get("flavour", "good"))
+    scfg.certificate_chain = P.chain_for(o.get("flavour", "good"))
     if o.get("wrong_key"):
         scfg.private_key = P.key(o.get("key", "p256"), slot=1)
     return ccfg, scfg
@@ -518,12 +519,14 @@ def c_matrix(batch, res):
 # ------------------------------------------------------------------ (b) at QUIC level
 
 
-Q_NEG = ["wrong-name", "expired", "not-yet", "self-signed", "untrusted-ca", "wrong-key"]
+Q_NEG = ["wrong-name", "expired", "not-yet", "self-signed", "untrusted-ca", "wrong-key",
+         "untrusted-ca+root-in-chain", "untrusted-inter+root-in-chain", "untrusted-inter-in-chain"]
+Q_POS = ["control-good", "good-via-intermediate", "good+ca-in-chain"]
 
 
 def q_negauth(batch, res):
     kinds = batch.get("kinds") or KEY_TYPES
-    cases = batch.get("cases") or (Q_NEG + ["control-good"])
+    cases = batch.get("cases") or (Q_NEG + Q_POS)
     for kind in kinds:
         for case_name in cases:
             o = {"key": kind, "alpn_c": ["vf"], "alpn_s": ["vf"], "versions_c": ["v1", "v2"], "versions_s": ["v1", "v2"], "suites_c": None, "suites_s": None,
@@ -537,12 +540,16 @@ def q_negauth(batch, res):
             res.evaluations += 1
             rep = {"gen": "q_negauth", "kinds": [kind], "cases": [case_name]}
             cev = mon.completed.get("client")
-            if case_name == "control-good":
+            if case_name in Q_POS:
                 res.count("b_quic_positive_controls")
-                if not (cev and mon.completed.get("server")):
+                if case_name != "control-good" and not (cev and mon.completed.get("server")):
+                    # not a violation of C03 (which only bounds when completion may be reported), but the negative chain
+                    # cases prove nothing if chains are rejected wholesale
+                    res.inconclusive.append("q_negauth: valid chain %s (%s) did not complete: %s" % (case_name, kind, _conn_state(sim.client)))
+                elif not (cev and mon.completed.get("server")):
                     res.inconclusive.append("q_negauth control %s did not complete: %s | %s" % (kind, _conn_state(sim.client), _conn_state(sim.server)))
                 else:
-                    res.nontrivial.add("bq:control:%s" % kind)
+                    res.nontrivial.add("bq:%s:%s" % (case_name, kind))
                 continue
             res.count("b_quic_negative_cases")
             if cev:
